@@ -229,6 +229,8 @@ def diff(expect, nkeys, classsize, got):
 
 
 def run(chk, thorough):
+    import time
+    t0 = time.time()
     rd = chk.rd.path
     res = C.tlc(SPEC, "GenericLocal", "genericlocal.cfg", chk.rd.sub("gl-tlc"), workers=4, timeout=900, parse_json=False)
     if not res.ok:
@@ -312,5 +314,6 @@ def run(chk, thorough):
         chk.cov["traces_validated_against_impl"] += len(expect)
     chk.cov["genlocal_pairs"] = len(expect)
     chk.cov["genlocal_classes"] = nkeys
+    chk.cov["genlocal_wall_s"] = round(time.time() - t0, 1)
     chk.cov["distinct_nontrivial"] += sum(1 for (i, j) in expect if i != j)
     chk.sample({"genlocal_pair": cases[len(cases) // 2]})
